@@ -26,9 +26,8 @@ Definition c_ship_lastWaiting : N := 22.           (* racy:ShipConnection.lastRe
 Definition c_mdns_autoaccept : N := 23.            (* racy:MdnsManager.autoaccept *)
 Definition c_mdns_provider : N := 24.              (* racy:MdnsManager.mdnsProvider *)
 Definition c_mdns_report : N := 25.                (* racy:MdnsManager.report *)
-Definition c_avahi_shutdownChan : N := 26.         (* racy:AvahiProvider.shutdownChan *)
-Definition c_avahi_addServiceChan : N := 27.       (* racy:AvahiProvider.addServiceChan *)
-Definition c_avahi_removeServiceChan : N := 28.    (* racy:AvahiProvider.removeServiceChan *)
+(* 26-28 were used for the AvahiProvider channel fields while they were believed racy
+   (a false alarm of the lock-only model, see the table); not reused *)
 
 Definition hub_new := ["NewHub"].
 (* Start (with startWebsocketServer inline) completes the construction of the hub: it
@@ -127,10 +126,16 @@ Definition guard_spec : list fspec := [
   G "AvahiProvider" "reconnecting" "mux" avahi_new;
   G "AvahiProvider" "serviceElements" "muxEl" avahi_new;
   (* the listener goroutine reads the three channel fields in its select without a.mux while
-     Shutdown / Start (reconnect) overwrite them under a.mux *)
-  GX "AvahiProvider" "shutdownChan" "mux" avahi_new [("AvahiProvider.chanListener", c_avahi_shutdownChan)];
-  GX "AvahiProvider" "addServiceChan" "mux" avahi_new [("AvahiProvider.chanListener", c_avahi_addServiceChan)];
-  GX "AvahiProvider" "removeServiceChan" "mux" avahi_new [("AvahiProvider.chanListener", c_avahi_removeServiceChan)];
+     Shutdown / Start overwrite them under a.mux.  Not a race: Shutdown first stops the
+     listener through the unbuffered shutdownChan (the listener evaluates the fields, then
+     receives; the receive is synchronised before the completion of the send, which precedes
+     the writes), and Start only writes them when they are nil, i.e. before the first
+     listener is forked or after Shutdown has stopped the previous one.  Channel edges are
+     outside the trace model, so this ordering is a hand-written assumption (code 0),
+     validated by the race detector on racedrv's Avahi part. *)
+  GX "AvahiProvider" "shutdownChan" "mux" avahi_new [("AvahiProvider.chanListener", 0%N)];
+  GX "AvahiProvider" "addServiceChan" "mux" avahi_new [("AvahiProvider.chanListener", 0%N)];
+  GX "AvahiProvider" "removeServiceChan" "mux" avahi_new [("AvahiProvider.chanListener", 0%N)];
   (* mdns.ZeroconfProvider *)
   Im "ZeroconfProvider" "ifaces" zc_new;
   G "ZeroconfProvider" "zc" "mux" zc_new;
@@ -154,7 +159,7 @@ Definition guard_spec : list fspec := [
 (* every finding code used by the table *)
 Definition finding_codes : list N :=
   [c_ship_lastWaiting; c_mdns_autoaccept; c_mdns_provider;
-   c_mdns_report; c_avahi_shutdownChan; c_avahi_addServiceChan; c_avahi_removeServiceChan].
+   c_mdns_report].
 
 (* the check evaluated by bin/check on every fact *)
 Definition check_c20 (f : fact) : codes := check_fact guard_spec f.
